@@ -42,6 +42,19 @@ MATCH_PROFILES = [
 ]
 
 SIM = {
+    "C01": {
+        "props": ["C01"],
+        "designs": [{"module": "MC_Exposure", "constants": {"MaxOrders": "2", "Mode": '"selection"'}, "invariants": ["Inv_ReportedEqualsBrute", "Inv_PendingAndRefusedLeftOut", "Inv_NewOrderIsAddition"]},
+                    {"module": "MC_Gate", "constants": {"MaxSteps": "4", "Limit": "4", "Deviations": "{}"}, "invariants": ["Inv_LossBounded", "Inv_SentOnlyIfWithin"], "must_reach": ["Reach_Filled"]},
+                    {"module": "MC_Gate", "constants": {"MaxSteps": "5", "Limit": "4", "Deviations": "{}"}, "invariants": ["Inv_LossBounded", "Inv_SentOnlyIfWithin"], "tier": "thorough"},
+                    {"module": "MC_Gate", "constants": {"MaxSteps": "4", "Limit": "4", "Deviations": '{"D1"}'}, "invariants": ["Inv_LossBoundedUnlessTainted", "Inv_SentOnlyIfWithinUnlessTainted"], "must_reach": ["Reach_D1Breach"]}],
+        "profiles": [{"p_force": 0.0, "p_multi_trade": 0.0, "p_limits": 0.0, "p_trade": 0.9, "n_strategies": (1, 2), "p_explimits": 1.0, "discipline": True, "p_replace": 0.35, "p_action": 0.8, "sizes": [2.0, 3.0, 4.0, 5.0, 8.0], "p_sp_order": 0.2, "p_inplay": 0.15},
+                     {"p_force": 0.0, "p_multi_trade": 0.0, "p_limits": 0.0, "p_trade": 0.9, "p_explimits": 1.0, "discipline": True, "p_replace_dup": 0.3, "p_action": 0.8, "sizes": [2.0, 5.0, 8.0, 12.0], "center": (30, 120)}],
+        "extra": "exposure",
+        "n_quick": 200, "n_thorough": 5000,
+        "rule": "strategies with every combination of the three limits, one live single-order trade per runner (acknowledgement discipline guaranteed by max_live_trade_count=1), random histories with fills / cancels / lapses / SP / close; at every accepted non-forced PLACE/REPLACE the brute-force worst case of position + order (Exposure.tla) is compared with the limits, and the worst-case loss per selection at the end of every update",
+        "assumptions": ASSUME_SIM + ["tolerance 0.01 per order in the position", "unacknowledged (PENDING) orders are excluded from exposure by the property's own domain note"],
+    },
     "C03": {
         "props": ["C03"],
         "designs": simcore_designs(["Inv_C03_OneInFlight"], ["Prop_C03_Finality"]),
